@@ -955,6 +955,8 @@ class Lib:
         if method == 'unwrap_or_default':
             if is_some:
                 return x
+            if 'default' in v.payload:
+                return v.payload['default']
             raise Unsupported('unwrap_or_default on None', node)
         if method == 'ok_or_else':
             return ok(x) if is_some else err(I.call_value(args[0], [], node))
@@ -1644,6 +1646,20 @@ class Lib:
             if method == 'success':
                 return v.get('success')
             if method == 'code':
+                # Some(0) on success; otherwise killed by a signal (None) or a non-zero code (environment choice)
+                succ = v.get('success')
+                if I.branch(succ):
+                    return some(0)
+                if I.branch(I.fresh('killed_by_signal')):
+                    return REnum('Option', 'None', {'default': 0})
+                code = I.fresh('exit_code', 'bv', 32)
+                I.pc.append(code != 0)
+                return some(code)
+            if method == 'signal':
+                if I.branch(v.get('success')):
+                    return NONE
+                if I.branch(I.fresh('killed_by_signal')):
+                    return some(9)
                 return NONE
         if tag == 'Output':
             pass
